@@ -26,7 +26,7 @@ RULE = ("geometry: (48 signed permutations + 2 rotations + shear + "
         "x1; thorough: 4x3x3); layout: 3-D / 4-D(2) / 4-D(3) / RGB x stored "
         "dtypes {u8,i8,i16,u16,i32,u32,u64,f32,f64} x header scaling {none, "
         "(2,1), (1,-1024), (1,0.5), (0.5,0)} x ignore_scaling x input_max "
-        "on 3 affines; headers whose qform/pixdim differ from the sform; a second run for another volume into the same directory (fails leaving the pair untouched, or writes a consistent pair); sharding strings {None, '1,1,0', '0,0,0', '2,3,1', "
+        "on 3 affines; headers whose qform/pixdim differ from the sform; qform-only headers (sform_code 0 with stale srow fields); a second run for another volume into the same directory (fails leaving the pair untouched, or writes a consistent pair); sharding strings {None, '1,1,0', '0,0,0', '2,3,1', "
         "malformed...} x gzip. Checks: info size/channels/resolution/"
         "data_type, imperfect-type status, files == return values, "
         "T*((i+0.5)*res) == 1e6*A*i on the 27 voxels {0,1,n-1}^3, compact "
@@ -138,6 +138,13 @@ def _eval_in(col, case, d):
         Aq[:3, 3] = [1, 2, 3]
         img.header.set_qform(Aq, code=1)
         img.header.set_sform(A, code=4)
+        img = nibabel.Nifti1Image(arr, None, img.header)
+    if case.get("qform_only"):
+        # orientation stored in the qform only (sform_code 0, as some
+        # scanner-side converters write); the srow fields hold stale values
+        stale = np.diag([2.0, 2.0, 2.0, 1.0])
+        img.header.set_qform(A, code=1)
+        img.header.set_sform(stale, code=0)
         img = nibabel.Nifti1Image(arr, None, img.header)
     nibabel.save(img, path)
     # the reference is the affine the FILE states (NIfTI stores it in
@@ -397,6 +404,14 @@ def cases(tier):
                         "layout": "3d", "dtype": "uint8", "scaling": None,
                         "ignore_scaling": False, "input_max": None,
                         "sharding": s, "gzip": gz, "nontrivial": True})
+    # qform-only headers (rigid directions only: a qform has no shear)
+    for name, m in mats[:48:5]:
+        out.append({
+            "kind": "geometry", "direction": name,
+            "affine": make_affine(m, (0.5, 0.8, 1.25), (5, -7, 11)).tolist(),
+            "shape": [3, 4, 5], "layout": "3d", "dtype": "uint8",
+            "scaling": None, "ignore_scaling": False, "input_max": None,
+            "qform_only": True, "nontrivial": True})
     # a second run for another volume into the same directory
     for name, m in (mats[0], mats[9], mats[17]):
         out.append({
